@@ -153,7 +153,7 @@ package system
 //@   loop 1 invariant I2 [C11]: ghost.openConns == 0 && !ghost.acHeld
 //@   loop 1 invariant I3 [C10]: err != nil && !fatalErr(err)
 //@   ensures F1 [C10]: err != nil && fatalErr(err) ==> result1 == err && ghost.attempts <= 1
-//@   ensures F2 [C10]: result1 != nil ==> (fatalErr(err) && result1 == err) || isCanceledErr(result1) || ghost.attempts >= 50
+//@   ensures F2 [C10]: result1 != nil ==> (fatalErr(result1) && ghost.attempts <= 1) || isCanceledErr(result1) || ghost.attempts >= 50
 //@   ensures F3 [C10]: ghost.attempts <= 51
 //@   ensures F4 [C10]: result1 == nil ==> ghost.attempts >= 1
 //@   ensures O1 [C11]: result1 == nil ==> result0 != nil && result0.done != nil && ghost.openConns == 1
